@@ -8,8 +8,8 @@
 (* line of the generating replica starts a scenario.  Deterministic and total.            *)
 EXTENDS Integers, Sequences, FiniteSets, TLC, Json
 
-VARIABLES l, recs, restarted, restartedAt, viol, nscn, ncommit
-tvars == <<l, recs, restarted, restartedAt, viol, nscn, ncommit>>
+VARIABLES l, recs, restarted, restartedAt, tainted, viol, nscn, ncommit
+tvars == <<l, recs, restarted, restartedAt, tainted, viol, nscn, ncommit>>
 
 Trace == ndJsonDeserialize("trace.ndjson")
 
@@ -45,9 +45,10 @@ RecDiff(a, b) ==
     ELSE IF a.cpUpdates # b.cpUpdates THEN "consensus-param-updates"
     ELSE "appHash"
 
+GasKind == "gasUsed-of-tx-rejected-before-ante-handler"
 DivergenceProp(r1, r2) == IF restarted[r1] \/ restarted[r2] THEN "C20" ELSE "C01"
 
-TraceInit == l = 1 /\ recs = <<>> /\ restarted = <<>> /\ restartedAt = <<>> /\ viol = {} /\ nscn = 0 /\ ncommit = 0
+TraceInit == l = 1 /\ recs = <<>> /\ restarted = <<>> /\ restartedAt = <<>> /\ tainted = {} /\ viol = {} /\ nscn = 0 /\ ncommit = 0
 
 TraceNext ==
     /\ l <= Len(Trace)
@@ -57,6 +58,7 @@ TraceNext ==
                  /\ recs' = IF e.r = "gen" THEN (e.r :> <<>>) ELSE (e.r :> <<>>) @@ recs
                  /\ restarted' = IF e.r = "gen" THEN (e.r :> FALSE) ELSE (e.r :> FALSE) @@ restarted
                  /\ restartedAt' = IF e.r = "gen" THEN (e.r :> -1) ELSE (e.r :> -1) @@ restartedAt
+                 /\ tainted' = IF e.r = "gen" THEN {} ELSE tainted
                  /\ nscn' = IF e.r = "gen" THEN nscn + 1 ELSE nscn
                  /\ UNCHANGED <<viol, ncommit>>
             [] e.ev = "commit" ->
@@ -64,22 +66,28 @@ TraceNext ==
                  /\ ncommit' = ncommit + 1
                  /\ viol' = viol
                       \cup (IF e.h = Len(recs[e.r]) + 1 THEN {} ELSE {Sig("C01", "height-gap", "-", e)})
-                      \cup {Sig(DivergenceProp(e.r, r2), RecDiff(recs[r2][e.h], e.rec),
-                                IF restartedAt[e.r] = e.h - 1 \/ restartedAt[r2] = e.h - 1 THEN "first-block-after-restart"
+                      \cup {Sig(DivergenceProp(e.r, r2),
+                                \* the gas a rejected-before-ante transaction reports also feeds the block gas meter and
+                                \* hence the next base fee: once that divergence occurred, later ones follow from it
+                                IF e.r \in tainted THEN "divergence-following-" \o GasKind ELSE RecDiff(recs[r2][e.h], e.rec),
+                                IF e.r \in tainted THEN "after-restart"
+                                ELSE IF restartedAt[e.r] = e.h - 1 \/ restartedAt[r2] = e.h - 1 THEN "first-block-after-restart"
                                 ELSE IF restarted[e.r] \/ restarted[r2] THEN "after-restart" ELSE "-", e) :
                               r2 \in {x \in DOMAIN recs \ {e.r} : Len(recs[x]) >= e.h /\ recs[x][e.h] # e.rec}}
                       \cup {Sig("C15", e.broken[j].route, "-", e) : j \in 1..Len(e.broken)}
+                 /\ tainted' = tainted \cup (IF \E r2 \in DOMAIN recs \ {e.r} : Len(recs[r2]) >= e.h /\ recs[r2][e.h] # e.rec
+                                                            /\ RecDiff(recs[r2][e.h], e.rec) = GasKind THEN {e.r} ELSE {})
                  /\ UNCHANGED <<restarted, restartedAt, nscn>>
             [] e.ev = "local" ->
                  /\ viol' = viol \cup (IF e.before = e.after THEN {}
                                        ELSE {Sig(IF restarted[e.r] THEN "C20" ELSE "C01", "local-action-changed-committed-state", e.kind, e)})
-                 /\ UNCHANGED <<recs, restarted, restartedAt, nscn, ncommit>>
+                 /\ UNCHANGED <<recs, restarted, restartedAt, tainted, nscn, ncommit>>
             [] e.ev = "restart" ->
                  /\ restarted' = [restarted EXCEPT ![e.r] = TRUE]
                  /\ restartedAt' = [restartedAt EXCEPT ![e.r] = e.h]
                  /\ viol' = viol \cup (IF e.info = e.expect THEN {}
                                        ELSE {Sig("C20", IF e.info.height # e.expect.height THEN "info-height" ELSE "info-appHash", "-", e)})
-                 /\ UNCHANGED <<recs, nscn, ncommit>>
+                 /\ UNCHANGED <<recs, tainted, nscn, ncommit>>
             [] e.ev = "imported_block" ->
                  \* the chain started from the exported genesis executes the following blocks like the original
                  /\ viol' = viol \cup {Sig("C19", "behaviour-after-import:" \o e.txs[j].k,
@@ -87,7 +95,7 @@ TraceNext ==
                                        j \in {x \in 1..Len(e.txs) : \/ e.txs[x].code # e.txs[x].gen_code
                                                                     \/ e.txs[x].codespace # e.txs[x].gen_codespace
                                                                     \/ e.txs[x].data # e.txs[x].gen_data}}
-                 /\ UNCHANGED <<recs, restarted, restartedAt, nscn, ncommit>>
+                 /\ UNCHANGED <<recs, restarted, restartedAt, tainted, nscn, ncommit>>
             [] e.ev = "export_import" ->
                  /\ viol' = viol \cup
                       (IF ~e.ok THEN {Sig("C19", "export-import-failed", "-", e)}
@@ -95,7 +103,7 @@ TraceNext ==
                                <<m, p>> \in {mp \in UNION {{<<m2, p2>> : p2 \in DOMAIN e.before[m2]} : m2 \in DOMAIN e.before} :
                                                 /\ e.before[mp[1]][mp[2]] # e.after[mp[1]][mp[2]]
                                                 /\ ~HeaderDerived(mp[1], e.norm[mp[1]][mp[2]])}})
-                 /\ UNCHANGED <<recs, restarted, restartedAt, nscn, ncommit>>
+                 /\ UNCHANGED <<recs, restarted, restartedAt, tainted, nscn, ncommit>>
 
 TraceSpec == TraceInit /\ [][TraceNext]_tvars
 
